@@ -36,7 +36,8 @@ CONTRACTS = [
     Contract(
         "py_gql.lang.lexer:Lexer._read_over_whitespace",
         self_fields=FIELDS, requires=[INV], modifies=[POS],
-        ensures=[INV, ("skips-ignored", "%s == ignored_end(%s, %s)" % (POS, S, OLD))],
+        ensures=[INV, ("skips-ignored", "%s == ignored_end(%s, %s)" % (POS, S, OLD)),
+                 ("stops-at-token", "%s == %s or not (is_ignored_char(%s[%s]) or %s[%s] == '#')" % (POS, N, S, POS, S, POS))],
         loops={
             1: {"inv": [("range", "0 <= pos <= %s" % N),
                         ("cont", "ignored_end(%s, pos) == ignored_end(%s, %s)" % (S, S, OLD))],
